@@ -497,10 +497,23 @@ func requestBuilder(c *engine.Ctx, id, rel string) {
 	}
 	n := 0
 	for _, p := range paths {
+		// the parameters by position (their names are the maintainers' business): the input slice, the target id
+		valuesP, targetP := "$values", "$target"
+		if fd := p.Root.Decl; fd != nil && fd.Type.Params != nil {
+			var names []string
+			for _, f := range fd.Type.Params.List {
+				for _, nm := range f.Names {
+					names = append(names, nm.Name)
+				}
+			}
+			if len(names) >= 2 {
+				valuesP, targetP = "$"+names[0], "$"+names[1]
+			}
+		}
 		// the loop over the input
 		for i := range p.Events {
 			le := &p.Events[i]
-			if le.Kind != engine.EvLoopEnter || le.Range != "$values" {
+			if le.Kind != engine.EvLoopEnter || le.Range != valuesP {
 				continue
 			}
 			exit := -1
@@ -516,9 +529,12 @@ func requestBuilder(c *engine.Ctx, id, rel string) {
 				}
 				switch ej.Kind {
 				case engine.EvBranch:
-					branch = true
+					// leaving the iteration after the element was appended skips nothing
+					if !(ej.Tok.String() == "continue" && (del || upd)) {
+						branch = true
+					}
 				case engine.EvCond:
-					if strings.HasSuffix(ej.Lit.L, "elem($values).Deleted") && ej.Lit.R == "true" {
+					if strings.HasSuffix(ej.Lit.L, "elem("+valuesP+").Deleted") && ej.Lit.R == "true" {
 						deleted = ej.Lit.Mask == 2
 						notDeleted = ej.Lit.Mask == 5
 					}
@@ -564,7 +580,7 @@ func requestBuilder(c *engine.Ctx, id, rel string) {
 			okPrefix := false
 			for i := range p.Events {
 				e := &p.Events[i]
-				if e.Kind == engine.EvWrite && e.Field == "gnmi.Path.Target" && e.RHS == "string($target)" {
+				if e.Kind == engine.EvWrite && e.Field == "gnmi.Path.Target" && e.RHS == "string("+targetP+")" {
 					okPrefix = true
 				}
 			}
